@@ -945,6 +945,11 @@ def drop_in_bad(a, b, what):
             bad.append(('C14:eq-nonbool-annotation-value', '%s: %s %s; the plain counterparts answer %s (the == of the '
                         'evaluated upgraded annotations does not answer a bool, and its answer is handed back / truth-tested)' % (
                             what, lab, 'raised ' + got[1] if got[0] == 'R' else got[1], want[0])))
+        elif got[0] == ('F' if '==' in lab else 'T') and nonbool_upgraded_values(a, b):
+            # hand-built objects whose plain data agree while the values of their upgraded annotations
+            # cannot be compared (distinct objects whose == has no truth value): 'not equal' is a
+            # legitimate answer -- upgraded objects that differ in the upgraded annotation only ARE unequal
+            continue
         elif got[0] == 'R':
             bad.append(('C14:eq-raises', '%s: %s raised %s; the plain counterparts answer %s' % (
                 what, lab, got[1], want[1] or want[0])))
